@@ -7,14 +7,15 @@ from . import replay
 def main(path):
     rec = json.load(open(path))
     nat = rec.get('native') or {}
-    sc = nat.get('scenario') or rec.get('scenario')
-    if sc is None:
+    steps = nat.get('steps') or ([nat] if nat.get('scenario') else ([rec] if rec.get('scenario') else []))
+    if not steps:
         print('no native scenario recorded in', path); return 2
     for release in (False, True):
-        out = replay.run_scenarios([sc], release=release)[0]
-        print('profile=%s outcome=%s' % ('release' if release else 'dev', json.dumps(out['result'])[:1500]))
-        if nat.get('real') is not None and out['result'] != nat['real']['result']:
-            print('  differs from the recorded run'); return 2
+        for i, stp in enumerate(steps):
+            out = replay.run_scenarios([stp['scenario']], release=release)[0]
+            print('profile=%s step=%d outcome=%s' % ('release' if release else 'dev', i, json.dumps(out['result'])[:1500]))
+            if stp.get('real') is not None and out['result'] != stp['real']['result']:
+                print('  differs from the recorded run'); return 2
     print('property=%s obligation=%s: %s' % (rec.get('property'), rec.get('obligation'), rec.get('desc')))
     return 1 if rec.get('replay_confirmed') is True else 0
 
